@@ -7,6 +7,8 @@
     highest_ttl_for_round := the round's largest_ttl, round_count +1 per application; every sent arm feeds the probe's own ttl to
     update_lowest_ttl and stores it in the hop at slot ttl − 1 (C05.R5).
  R3 publish_trace's largest_ttl: target_ttl if known, else min(ttl − 1, max_received + 1) if something answered, else 0.
+ R5 readers: FlowState::hops() is &hops[lowest_ttl − 1 .. highest_ttl] and empty while either bound is 0; target_hop() is the hop at
+    highest_ttl_for_round (hops[0] before any round); is_target / is_in_round compare a hop's ttl with highest_ttl_for_round.
  R4 reader / updater panic audit (A5): hops(), target_hop(), is_target(), is_in_round(), round(), round_count(), hops_for_flow() and
     State::update_from_round under the stated invariants: probes carry 1 ≤ ttl ≤ MAX_TTL — the lower bound only if Builder::build rejects
     first_ttl < 1 —, FlowState.hops has MAX_TTL entries, and (D4, rounds come from Strategy) lowest_ttl − 1 ≤ highest_ttl ≤ MAX_TTL.
@@ -212,6 +214,91 @@ def run(chk, tier):
             chk.fail('R3', 'probes:' + row, fn_loc(fp), 'the published round carries %s instead of state.probes()' % probes[:60], key='R3|probes')
     if seen != {'target-known', 'answered', 'silent'}:
         chk.fail('R3', 'coverage', fn_loc(fp), 'largest_ttl cases derived: %s' % sorted(seen), key='R3|coverage')
+
+    # ---- R5: what the readers return ----------------------------------------------------------------------
+    chk.rule('R5', 'readers: hops() = hops[lowest−1 .. highest] (empty before the first probe), target_hop() = the hop at the latest round\'s length, is_target / is_in_round compare with it', floor=4)
+    e5 = Engine(prog, inline_depth=1)
+    W = lambda x: r'(?:as_usize\()?%s\)?' % x
+    LO, HI, HR = r'self\.lowest_ttl', r'self\.highest_ttl', r'self\.highest_ttl_for_round'
+
+    def reader(name, nargs):
+        f_ = prog.find(r'state::FlowState::%s$' % name)
+        chk.fn_seen(f_['path'])
+        st_ = St()
+        return f_, e5.run(f_, [e5.sym_ref(st_, 'self')] + ([e5.sym_ref(st_, 'hop')] if nargs == 2 else []), st_)
+
+    def tri(cd, atom):
+        k_, v_ = canon(atom, 1)
+        return None if cd.get(k_) not in (0, 1) else int(cd[k_] == v_)
+    f_, outs_ = reader('hops', 1)
+    good, why = bool(outs_), ''
+    nonempty = 0
+    for o in outs_:
+        cd = cdec(o)
+        lo0, hi0 = tri(cd, 'Eq(self.lowest_ttl, 0)'), tri(cd, 'Eq(self.highest_ttl, 0)')
+        val = vshow(o.value)
+        if o.kind != 'return':
+            good, why = False, 'a trace ends in %s' % o.kind
+        elif lo0 == 0 and hi0 == 0:
+            nonempty += 1
+            if not re.fullmatch(r'call:Vec::index\(self\.hops, Range\(Sub\(%s, 1\), %s\)\)|subslice\(self\.hops, Sub\(%s, 1\), %s\)' % (W(LO), W(HI), W(LO), W(HI)), val):
+                good, why = False, 'with both bounds set hops() is %s' % val[:120]
+        elif lo0 == 1 or hi0 == 1:
+            if not re.search(r'#len=0$', val):
+                good, why = False, 'before the first probe hops() is %s' % val[:120]
+        else:
+            good, why = False, 'hops() decides on %s' % [(vshow(a), v) for a, v, _ in o.st.decisions]
+    if good and nonempty:
+        chk.ok('R5', 'hops', '&hops[lowest_ttl − 1 .. highest_ttl], empty while either bound is 0')
+    else:
+        chk.fail('R5', 'hops', fn_loc(f_), 'FlowState::hops: %s; the list must be the gap-free run from the lowest ttl probed to the greatest length reported' % (why or 'no trace returns the window'), key='R5|hops')
+    f_, outs_ = reader('target_hop', 1)
+    good, why = bool(outs_), ''
+    seen = set()
+    for o in outs_:
+        cd = cdec(o)
+        pos = tri(cd, 'Gt(self.highest_ttl_for_round, 0)')
+        val = vshow(o.value)
+        seen.add(pos)
+        want = (r'call:Vec::index\(self\.hops, Sub\(%s, 1\)\)|index\(self\.hops, Sub\(%s, 1\)\)' % (W(HR), W(HR))) if pos == 1 else r'call:Vec::index\(self\.hops, 0\)|index\(self\.hops, 0\)'
+        if o.kind != 'return' or pos is None or len(cd) != 1 or not re.fullmatch(want, val):
+            good, why = False, 'with highest_ttl_for_round %s 0 it returns %s (decisions %s)' % ('>' if pos == 1 else '=' if pos == 0 else '?', val[:120], [(vshow(a), v) for a, v, _ in o.st.decisions])
+    if good and seen == {0, 1}:
+        chk.ok('R5', 'target_hop', 'hops[highest_ttl_for_round − 1], hops[0] before any round')
+    else:
+        chk.fail('R5', 'target_hop', fn_loc(f_), 'FlowState::target_hop: %s; the designated target is the hop at the latest round\'s path length' % (why or 'cases %s' % sorted(map(str, seen))), key='R5|target_hop')
+    for name, atom in (('is_target', 'Eq(self.highest_ttl_for_round, hop.ttl)'), ('is_in_round', 'Le(hop.ttl, self.highest_ttl_for_round)')):
+        f_, outs_ = reader(name, 2)
+        vals = {canon(vshow(o.value), 1) if o.kind == 'return' else (o.kind, 0) for o in outs_}
+        dec = [d for o in outs_ for d in o.st.decisions]
+        if vals == {canon(atom, 1)} and not dec:
+            chk.ok('R5', name, atom)
+        elif dec and {(tri(cdec(o), atom), vshow(o.value)) for o in outs_} == {(1, '1'), (0, '0')}:
+            chk.ok('R5', name, atom + ' (as a branch)')
+        else:
+            chk.fail('R5', name, fn_loc(f_), 'FlowState::%s is %s, expected %s' % (name, sorted(map(str, vals)), atom), key='R5|%s' % name)
+
+    # the public readers of State hand the question to the FlowState of the flow asked for (the default flow for hops())
+    e5d = Engine(prog, inline_depth=0)
+    for name in ('hops', 'hops_for_flow', 'target_hop', 'is_target', 'is_in_round', 'round', 'round_count'):
+        fs_ = prog.find(r'state::State::%s$' % name, unique=False)
+        if not fs_:
+            chk.fail('R5', 'State::' + name, '?', 'State::%s not found (anchor lost)' % name, key='R5|State|%s|missing' % name)
+            continue
+        f_ = fs_[0]
+        st_ = St()
+        args_ = [e5d.sym_ref(st_, 'self')] + [(e5d.sym_ref(st_, 'a%d' % i) if f_['locals'][i]['ty'].startswith('&') else ('sym', 'a%d' % i)) for i in range(2, f_['argc'] + 1)]
+        flow_arg = [i for i in range(2, f_['argc'] + 1) if 'FlowId' in f_['locals'][i]['ty']]
+        hop_arg = [i for i in range(2, f_['argc'] + 1) if 'Hop' in f_['locals'][i]['ty']]
+        key_ = 'a%d' % flow_arg[0] if flow_arg else r'call:State::default_flow_id\(\)'
+        inner = 'hops' if name == 'hops_for_flow' else name
+        entry_ = r'(?:call:HashMap::index\(self\.state, %s\)|field:0\(call:HashMap::get\(self\.state, %s\)\))' % (key_, key_)
+        want = r'call:FlowState::%s\(%s%s\)' % (inner, entry_, (', a%d' % hop_arg[0]) if hop_arg else '')
+        vals = sorted({vshow(o.value) if o.kind == 'return' else o.kind for o in e5d.run(f_, args_, st_)})
+        if len(vals) == 1 and re.fullmatch(want, vals[0]):
+            chk.ok('R5', 'State::' + name, vals[0])
+        else:
+            chk.fail('R5', 'State::' + name, fn_loc(f_), 'State::%s returns %s; expected the answer of the FlowState of the flow asked for' % (name, vals), key='R5|State|%s' % name)
 
     # ---- R4 ---------------------------------------------------------------------------------------------
     MAXTTL = prog.const_val('trippy_core::constants::MAX_TTL')
